@@ -126,7 +126,12 @@ CommitteeClauses(ev, I, valEnts) ==
 TrOut ==
     /\ Is("elect_out")
     /\ haveInp
-    /\ LET I  == inp
+    /\ LET \* freeze and suspension status as the election found it: the applications told about the coming election (roothash:
+           \* liveness of the ending epoch) change them before the candidates are read, the scheduler itself never does - so the
+           \* status once the election is over is the status the election read
+           Upd(n) == IF HasF(Ev, "status_after") /\ n.id \in DOMAIN Ev.status_after
+                     THEN [n EXCEPT !.frozen = Ev.status_after[n.id].frozen, !.susp = Ev.status_after[n.id].susp] ELSE n
+           I  == [inp EXCEPT !.nodes = [i \in DOMAIN inp.nodes |-> Upd(inp.nodes[i])]]
            ns == SeqSet(I.nodes)
            vs == SeqSet(Ev.validators)
            elBase == {n \in ns : Eligible(n, I)}
